@@ -71,6 +71,43 @@ CLAIMS.update({
    technique="Lean 4 proof of the merge function + split/pre-merged/reordered judge on the real binary + model correspondence",
    ref="DESIGN.md §5 C17"),
 })
+CLAIMS.update({
+ "C18": dict(
+   text="Lean mirror of functions/*.rs and of the argument dispatch in eval_context.rs with theorems for all argument lists: count = number of resolved members; element-wise functions give one slot per member in query order with unresolved / unsupported members skipped; substring on ASCII strings is the half-open character range and empty outside it, offsets >= 65536 do not wrap; join concatenates strings with the delimiter and is an error on any non-string; decimal digits round-trip; converters return an error, never a wrong value, on unparsable input. Tied by an independent Python reference of the documented behaviour run against the implementation on generated arguments (including multi-byte text, empty selections, type mismatches) and by model/implementation correspondence; to_upper/to_lower/url_decode/regex_replace/json_parse/parse_epoch are Env parameters (their tables are filled from the real crates per batch).",
+   note="Partial for the oracle-backed functions (regex, case mapping, URL decoding, JSON, chrono are parameters, compared per batch only). Genuine defects repaired: 8baf9b1, 1ff20c9, 57f0017.",
+   technique="Lean 4 proof over the function model + reference-implementation judge + correspondence",
+   ref="DESIGN.md §5 C18"),
+ "C11": dict(
+   text="Lean model of the scalar typing cascade and of the tag handling of the libyaml-path loader with theorems: quoted scalars are strings whatever they spell; typing depends on (style, text) only; JSON integers / floats / true / false / null are typed as such; other plain words are strings; the short-form tag tables GENERATED from the source are total, each maps to its documented long form, every loader consults the same table, unknown tags leave the value untouched. Tied by serialising every generated document in six ways (compact / pretty JSON, block / flow YAML, quoted variations, tagged forms) and loading it through all four loaders via the hook: typed values must coincide (4x4 comparison).",
+   note="Partial: libyaml tokenisation and serde_json / serde_yaml are interface, only compared per document. Genuine defect repaired: dac9b90 (loaders consulted different tag sets).",
+   technique="Lean 4 proof of the typing cascade and tag tables (generated) + cross-loader / cross-serialisation judge through the hook",
+   ref="DESIGN.md §5 C11"),
+ "C14": dict(
+   text="The synonym tables are GENERATED from parser.rs and Lean theorems prove: every keyword has exactly its two case spellings (or: or/OR/|OR|), not/NOT/! and =/:= are the negation and assignment forms; white space and comments of any shape are skipped to the same token; single and double quotes denote the same string; `this` is the identity query step of the evaluator model. The grammar above the lexical layer is not transliterated: every generated program is re-spelled token class by token class (case, or-forms, not-forms, :=, quotes, layout, comments, this., numeric keys) and the real parser's ASTs and the verdicts must coincide.",
+   note="Partial (grammar tied by re-spelling judge only). Known finding F-C14-1 (type block vs filter on documents without a Resources struct).",
+   technique="Lean 4 proof over generated synonym tables and the lexer model + re-spelling judge on the real parser and evaluator",
+   ref="DESIGN.md §5 C14"),
+ "C19": dict(
+   text="Lean model of gen_rules with theorems for every list of resources: one rule per resource type that has properties, one clause per property name of that type, and the value list of a clause contains exactly the rendered values occurring for that (type, property) - so every occurrence satisfies its clause and a fresh value does not. That the emitted text parses to these clauses, that validate reports PASS on the source template and FAIL after mutating a property is judged on the real binary (rulegen -> parse -> validate -> mutate).",
+   note="Known findings F-C19-1..4 (trimmed strings, dotted property names, properties present in only some resources, mixed list/scalar values). Genuine defect repaired: f746749 (hash-order output).",
+   technique="Lean 4 proof over the rulegen model + rulegen->parse->validate->mutate judge on the real binary",
+   ref="DESIGN.md §5 C19"),
+ "C05": dict(
+   text="Every Lean function is deterministic, so the content is that every SOURCE of non-determinism is a parameter or audited: (1) a GENERATED obligation - every iteration over a std HashMap/HashSet that tools/extract.py finds in the current source is in the reviewed baseline with the reason its order cannot reach an output (a new site breaks the theorem); (2) every aggregation is invariant under permutation of what such a container yields; (3) the clock is the Env field `now`, read by no function but now(); (4) evaluation starts from St.init, nothing evaluated earlier is an input. The runtime part is judged by repetition: every (scenario, mode) of validate / test / parse-tree / rulegen in 5 fresh processes of the real binary under 5 environments and 5 times inside one long-lived process with other work in between - equal exit codes, byte-identical structured output (JUnit modulo time=), console output equal as a multiset of lines.",
+   note="Partial: actual hash seeds, process environment and clock are runtime; repetition can only sample them. The site scan is token-level (tools/extract.py).",
+   technique="Lean 4 proof (generated hash-site coverage obligation, permutation invariance, clock independence) + repeat-run judge (fresh processes and in-process)",
+   ref="DESIGN.md §5 C05"),
+ "C08": dict(
+   text="The model is total: every function is a total Lean function, a Rust panic inside a modelled function is an explicit Outcome.panic. (1) GENERATED obligation: every panic-capable construct (unwrap, expect, unreachable!, panic!, slicing, indexing, narrowing casts, exit) found in the current source per function is in the reviewed baseline (a new one breaks the theorem); (2) with the arities the parser enforces (generated table), no function call indexes out of bounds whatever the argument result sets are; (3) the model predicts panic exactly where the implementation panics (correspondence, catch_unwind). Judged on: adversarial + random parser-accepted programs x documents through run_checks (verbose and report mode); byte/token-mutated rules, data, test, payload and parameter files through validate / test / parse-tree / rulegen in-process and in the real binary (signals, exit status, timeouts); every rules file the grammar rejects must be rejected with line and column and without evaluating any rule.",
+   note="Partial: the nom grammar and libyaml on arbitrary bytes are outside the model (testing only). Known findings F-C08-1 (self-calling parameterised rule overflows the stack) and F-C08-2 (parse time doubles per filter nesting level). Genuine defects repaired: c360fa1, 1ff20c9, 1ce4a53, 3091729, d49a770, 5cf016c, 57f0017, 1adb1d3, 81fec31.",
+   technique="Lean 4 proof (generated panic-site coverage obligation, no-index-panic theorem, total model) + mutated-input / adversarial-program crash judge",
+   ref="DESIGN.md §5 C08"),
+ "C10": dict(
+   text="Lean theorems on the loader and retrieval model for documents of any size: every value reachable in a loaded document by the segments s1..sn carries exactly the pointer /s1/../sn (so a reported path resolves to the reported value); the retrieval steps (struct lookup, retrieve_index, [*] / .*) return values one segment further inside the document; an unresolved result names the value it stopped at, that value is in the document and the missing key / index does not resolve there. Judged on the real evaluator: generated function-free rule files x documents serialised as JSON, flow and block YAML with randomised layout - every reported from / traversed_to (and data-borne to) must resolve to exactly its value, the next queried segment must be absent at traversed_to, and every [L:l,C:c] of a scalar must equal the position an independent scanner (PyYAML composer) gives that scalar.",
+   note="Partial: source positions (libyaml marks) are not modelled, only judged; soundness of whole queries (filters, variables) rests on the step lemmas + correspondence, not on one end-to-end theorem.",
+   technique="Lean 4 proof of load-path soundness and retrieval-step closure + layout-randomised path/value/position judge",
+   ref="DESIGN.md §5 C10"),
+})
 REASONS = {}
 def main():
     checks = []
